@@ -1,5 +1,6 @@
 import TT.Model.Creds
 import TT.Lemmas.Creds
+import TT.Model.SettingsKeys
 /-!
 # C13  Configured credentials and settings mean exactly what the files say
 -/
@@ -205,3 +206,29 @@ theorem no_protocol_refused (c : ListenCfg) (h : c.http1 = false ∧ c.http2 = f
   (refuses_to_start_iff c).2 (Or.inr (Or.inr (Or.inl h)))
 
 end TT.Creds
+
+/-!
+## Keys of the settings files
+
+The table is regenerated from `settings.rs` on every run; the correspondence suite sets every integer and boolean key of
+every section (under each of its accepted spellings) in a file and looks which fields of the read-back settings moved.
+-/
+namespace TT.SettingsKeys
+
+/-- **a key means one field**: within a section no key - name, rename or alias - is accepted for two fields, so what a
+file says about a key cannot land anywhere but in the field the key is attached to -/
+theorem keys_unambiguous : Unambiguous TT.Gen.settingsKeys = true := by decide
+
+/-- **a key means the field it names**: every accepted spelling is the field's own name, a tail of it (the legacy
+names without their `initial_` prefix) or the name with its unit (`_secs`); in particular two fields never swap their legacy names -/
+theorem keys_name_their_fields : NamesItsField TT.Gen.settingsKeys = true := by decide
+
+/-- the swap of two legacy names is ruled out by `keys_name_their_fields`, not by `keys_unambiguous` (non-vacuity of the second) -/
+example :
+    let swapped : Table := [("Q", "initial_bidi_local", ["initial_bidi_local", "bidi_remote"]),
+                            ("Q", "initial_bidi_remote", ["initial_bidi_remote", "bidi_local"])]
+    Unambiguous swapped = true ∧ NamesItsField swapped = false
+    ∧ fieldsOf TT.Gen.settingsKeys "QuicSettings" "max_stream_data_bidi_local" = ["initial_max_stream_data_bidi_local"] := by
+  decide
+
+end TT.SettingsKeys
